@@ -5,6 +5,8 @@ import InToto.Properties.C04
 #print axioms InToto.C04.accepted_signatures_come_from_signing
 #print axioms InToto.C04.fails_after_content_change
 #print axioms InToto.C04.fails_under_other_key
+#print axioms InToto.C04.poke_changes_signed_bytes_or_nothing
+#print axioms InToto.C04.stale_signature_fails_after_poke
 #print axioms InToto.C04.history_never_panics
 #print axioms InToto.C04.legacy_verifies_canonical_bytes
 #print axioms InToto.C04.dsse_verifies_pae
